@@ -91,20 +91,37 @@ def run(ctx, rep):
                     worker_closures.add(clo[1])
                     # R15.3: the worker's range is the loop element of partition(n)
                     rng_caps = [c for c in caps if isinstance(c, tuple) and c and c[0] == 'iterval']
+                    lasts = [c for c in caps if isinstance(c, tuple) and c and c[0] == 'app' and c[1] == 'vec_last']
+                    if not rng_caps and len(lasts) == 1:
+                        # the element popped off partition(n); the others are handed out by the loop, whose workers are
+                        # checked on the paths that enter it
+                        rng_caps = [('iterval', None, ('iter', 'val', lasts[0][2][0]))]
                     okr = len(rng_caps) == 1
                     detail = 'worker captures no partition element'
                     if okr:
                         it = rng_caps[0][2]
+                        if it[0] == 'iter' and it[1] == 'val' and it[2][0] == 'app' and it[2][1] == 'vec_init':
+                            # partition(n) with its last element popped off: that element must go to a worker of its own
+                            whole = it[2][2][0]
+                            last = ('app', 'vec_last', (whole,))
+                            if any(k2 == 'spawn' and any(y == last for y in subterms(p2['closure'])) for k2, p2 in tr):
+                                it = ('iter', 'val', whole)
                         okr = it[0] == 'iter' and it[1] == 'val' and it[2][0] == 'app' and it[2][1] == part and it[2][2][0] == DR
                         detail = f'work list is {show(it, maxd=4)[:140]}'
                         if okr:
                             avail_terms.add(it[2][2][1])
                             decs = set()
                             for c in st.asm:
+                                about_days = any(y == ('app', nd, (DR,)) for y in subterms(c))
                                 for x in subterms(c):
                                     if x and x[0] == 'bin' and x[1] == 'Div' and any(y == ('app', nd, (DR,)) for y in subterms(x[2])):
                                         decs.add(E.specialise(x[3], st.asm))
-                            oka = it[2][2][1] in decs
+                                    elif about_days and x and x[0] == 'bin' and x[1] == 'Mul':
+                                        # days < threshold * n : the same decision with the division multiplied out
+                                        decs.add(E.specialise(x[2], st.asm))
+                                        decs.add(E.specialise(x[3], st.asm))
+                            # a decision that mentions no per-thread share at all leaves nothing to compare with
+                            oka = (it[2][2][1] in decs) if decs else None
                             rep.ob('R15.3', 'same-parallelism-value', oka,
                                    'partition(n) uses the n tested in the sequential/parallel decision' if oka else
                                    f'partition is sized by {show(it[2][2][1], maxd=4)[:80]} but the decision divides by {[show(d, maxd=4)[:60] for d in decs]}')
@@ -194,9 +211,48 @@ def run(ctx, rep):
         if eng3.incomplete:
             rep.ob('engine', 'incomplete-collector', None, str(eng3.incomplete[:2]))
         collector_checks(rep, lv, appends)
+    block_independence(ctx, rep, seq, nd)
     # C14 is the other half of the argument (the work list is an exact cover): its partition and day-count rules are included
     from . import shared
     shared.include(ctx, rep, c14.run, {'R14.1', 'R14.3'}, why='partition(n) covers the range exactly')
+
+
+def block_independence(ctx, rep, seq, nd, rule='R15.6'):
+    """The parallel result is the sequential API run on every block; it is the sequential result for the whole range only if what
+    the sequential API stores under a date does not depend on where its range started.  Checked on the sequential API's loop:
+    apart from the stored key itself, the stored value mentions no state carried from one iteration to the next."""
+    from ..facts import callee_name
+    lib = ctx.lib
+    eng = ctx.engine()
+    eng.opaque.add(nd)
+    # the per-day computation stays opaque: only what is fed into it matters here
+    for _, t_ in lib.bodies[seq].calls():
+        n_ = callee_name(t_)
+        b_ = lib.bodies.get(n_)
+        if b_ is not None and b_.kind in ('Fn', 'AssocFn') and not b_.derived and n_ != nd:
+            eng.opaque.add(n_)
+    inserts = []
+    eng.hooks['map_insert'] = lambda eng_, st_, fr_, t_, ptr_, k_, v_: inserts.append((E.intern(eng_.purify(st_, k_)), E.intern(eng_.purify(st_, v_))))
+    tree = eng.call_entry(seq, eng.sym_args(seq, ['params', 'location', 'date_range']))
+    list(E.leaves_of(tree))
+    if eng.incomplete:
+        rep.ob('engine', 'incomplete-sequential-api', None, str(eng.incomplete[:2]))
+    rep.floor('result insertions in the sequential range API', len(inserts), 1)
+    KEY = ('param', '<the stored date>')
+
+    def without_key(t, k):
+        if t == k:
+            return KEY
+        if isinstance(t, tuple):
+            return tuple(without_key(x, k) for x in t)
+        return t
+    for k, v in inserts:
+        carried = [x for x in subterms(without_key(v, k)) if x and x[0] == 'loopval']
+        rep.ob(rule, 'value-depends-on-its-date-only', not carried,
+               'the value stored under a date is computed from that date and the shared arguments' if not carried else
+               f'the value stored under {show(k, maxd=3)[:70]} is computed from {show(carried[0], maxd=3)[:90]}, a variable carried from one '
+               'iteration of the range loop to the next: the same date gets a different value when a worker\'s block starts elsewhere',
+               where=lib.bodies[seq].span)
 
 
 def collector_checks(rep, lv, appends):
